@@ -1571,6 +1571,9 @@ class Stream(AbstractStream):
             tc1._T = tc2._T = tc._T
             tc1._P = tc2._P = tc._P
             s1.phase = s2.phase = self.phase
+        else:
+            for s in (s1, s2): # All flow to a multi-phase outlet goes to the phase of this stream
+                if isinstance(s._imol, MaterialIndexer): s.phase = self.phase
         if s1.chemicals is chemicals: 
             s1.mol[:] = values
         else:
